@@ -83,11 +83,36 @@ StopApp(a) ==
   /\ last' = [act |-> "StopApp", apps |-> {a}]
   /\ UNCHANGED pend
 
+(* Stopping an application that still holds qubits takes time: the qubits are released one after the other, in the  *)
+(* order of their virtual ids, and the reset of each physical qubit is a point where other applications run.  The  *)
+(* application counts as registered until the last step (subs[a] = "stop" meanwhile: nothing else acts for it).   *)
+Stopping(a) == subs[a].active /\ subs[a].name = "stop"
+FirstMapped(um) == CHOOSE v \in DOMAIN um : um[v] # None /\ \A w \in DOMAIN um : w < v => um[w] = None
+ReleaseNext(a) == LET v == FirstMapped(ms[a].um) IN
+                  /\ used' = used \ {ms[a].um[v]}
+                  /\ ms' = [ms EXCEPT ![a].um[v] = None]
+StopBegin(a) ==
+  /\ a \in apps /\ ~subs[a].active /\ ~reqs[a].has /\ \A i \in DOMAIN pend : pend[i].app # a
+  /\ MappedOf(a) # {}
+  /\ ReleaseNext(a)
+  /\ subs' = [subs EXCEPT ![a] = [name |-> "stop", active |-> TRUE]]
+  /\ last' = [act |-> "StopBegin", apps |-> {a}]
+  /\ UNCHANGED <<apps, reqs, pend>>
+StopStep(a) ==
+  /\ a \in apps /\ Stopping(a)
+  /\ IF MappedOf(a) = {}
+     THEN /\ apps' = apps \ {a} /\ ms' = [ms EXCEPT ![a] = NoApp] /\ used' = used
+          /\ subs' = [subs EXCEPT ![a] = NoSub] /\ reqs' = [reqs EXCEPT ![a] = NoReq]
+          /\ last' = [act |-> "StopApp", apps |-> {a}]
+     ELSE /\ ReleaseNext(a) /\ UNCHANGED <<apps, subs, reqs>>
+          /\ last' = [act |-> "StopBegin", apps |-> {a}]
+  /\ UNCHANGED pend
+
 (* The host gives up on an application while its subroutine is suspended INSIDE an instruction (the reset of a  *)
 (* freed physical qubit takes time).  Whatever part of that instruction already happened, the application and  *)
 (* everything it holds are gone afterwards; what is left of the subroutine may not change anything any more.   *)
 AbortApp(a) ==
-  /\ a \in apps /\ subs[a].active /\ ~reqs[a].has /\ \A i \in DOMAIN pend : pend[i].app # a
+  /\ a \in apps /\ subs[a].active /\ ~Stopping(a) /\ ~reqs[a].has /\ \A i \in DOMAIN pend : pend[i].app # a
   /\ apps' = apps \ {a}
   /\ used' = used \ MappedOf(a)
   /\ ms' = [ms EXCEPT ![a] = NoApp]
@@ -100,7 +125,7 @@ AbortApp(a) ==
 (* them go with the application.                                                                                   *)
 PendOf(a) == { i \in DOMAIN pend : pend[i].app = a }
 AbortOutstanding(a) ==
-  /\ a \in apps /\ subs[a].active /\ (reqs[a].has \/ PendOf(a) # {})
+  /\ a \in apps /\ subs[a].active /\ ~Stopping(a) /\ (reqs[a].has \/ PendOf(a) # {})
   /\ apps' = apps \ {a}
   /\ used' = used \ (MappedOf(a) \cup { pend[i].phys : i \in PendOf(a) })
   /\ ms' = [ms EXCEPT ![a] = NoApp]
@@ -118,7 +143,7 @@ BeginSub(a, p) ==
 
 ProgOf(a) == Lib(a)[subs[a].name]
 StepApp(a) ==
-  /\ a \in apps /\ subs[a].active
+  /\ a \in apps /\ subs[a].active /\ ~Stopping(a)
   /\ LET prog == ProgOf(a)
          m0 == [ms[a] EXCEPT !.used = used]
      IN IF m0.pc >= Len(prog)
@@ -169,7 +194,7 @@ Retry ==
   /\ UNCHANGED <<apps, used, subs>>
 
 Next == \/ \E a \in AppIds, n \in UMSizes : InitApp(a, n)
-        \/ \E a \in AppIds : StopApp(a) \/ StepApp(a) \/ AbortApp(a) \/ AbortOutstanding(a)
+        \/ \E a \in AppIds : StopApp(a) \/ StepApp(a) \/ AbortApp(a) \/ AbortOutstanding(a) \/ StopBegin(a) \/ StopStep(a)
         \/ \E a \in AppIds : \E phys \in {MinUnused(used), MinUnused(used \cup {MinUnused(used)})} : DeliverK(a, phys)
         \/ \E a \in AppIds, p \in ProgNames : BeginSub(a, p)
         \/ Retry
